@@ -174,7 +174,8 @@ Proof.
   { subst a'. unfold is_native. destruct (a_order a) eqn:E; [exact E|reflexivity]. }
   assert (Hl : logical a' = logical a).
   { subst a'. destruct (is_native a); [reflexivity|apply astype_native_logical]. }
-  unfold ndarray_from_bytes, shape_wire. rewrite omap_wire_nat, Hd, dtype_of_name_name.
+  unfold ndarray_from_bytes, shape_wire. cbn [length Nat.eqb ndarray_unpack_fields field_of].
+  rewrite omap_wire_nat, Hd, dtype_of_name_name.
   unfold tobytes_C. rewrite Ho, Hd, Hl. cbn [elem_bytes].
   set (w := dt_width (a_dt a)).
   assert (Hw : (1 <= w)%nat) by apply dt_width_pos.
@@ -212,6 +213,52 @@ Lemma obj_reject elems : forallb (fun e => match e with OBytes _ => true | ONotB
 Proof.
   induction elems as [|e l IH]; intros H; [discriminate|]. cbn [forallb] in H. rewrite omap_cons.
   destruct e as [b|]; [|reflexivity]. cbn [obj_bytes]. cbn [andb] in H. rewrite (IH H). reflexivity.
+Qed.
+
+(* ---------- the interpreted tables have the expected closed forms ---------- *)
+Lemma enc_arr a : encode (VArr a) = Some (WExt EXT_ndarray (ndarray_to_bytes a)).
+Proof. reflexivity. Qed.
+Lemma enc_jax a : encode (VJax a) = Some (WExt EXT_ndarray (ndarray_to_bytes (astype_native a))).
+Proof. reflexivity. Qed.
+Lemma enc_other o : encode (VOther o) = option_map (WExt EXT_ndarray) (other_to_bytes o).
+Proof. destruct o as [n h al sh raw]. destruct h, al; reflexivity. Qed.
+Lemma enc_obj shape elems : encode (VObj shape elems) =
+  match omap obj_bytes elems with
+  | Some flat => Some (WExt EXT_bytes_ndarray (WArr [shape_wire shape; WArr flat]))
+  | None => None
+  end.
+Proof.
+  cbn [encode]. unfold ext_pack. cbn [find pack_dispatch test_holds fst snd apply_enc].
+  unfold bytes_ndarray_to_bytes. cbn [bytes_ndarray_checks_every_element].
+  destruct (omap obj_bytes elems); reflexivity.
+Qed.
+Lemma enc_npscalar d bits : encode (VNpScalar d bits) = Some (WExt EXT_npscalar (ndarray_to_bytes (mk_carr d [] [bits]))).
+Proof. reflexivity. Qed.
+Lemma enc_npother o : encode (VNpOther o) = option_map (WExt EXT_npscalar) (other_to_bytes o).
+Proof. destruct o as [n h al sh raw]. destruct h, al; reflexivity. Qed.
+Lemma enc_complex re im : encode (VComplex re im) = Some (WExt EXT_native_complex (WArr [WF64 re; WF64 im])).
+Proof. reflexivity. Qed.
+Lemma enc_tuple vs : encode (VTuple vs) = None.
+Proof. reflexivity. Qed.
+
+Lemma dec_ndarray p : ext_unpack EXT_ndarray p = option_map VArr (ndarray_from_bytes p).
+Proof. reflexivity. Qed.
+Lemma dec_npscalar p : ext_unpack EXT_npscalar p =
+  match ndarray_from_bytes p with
+  | Some a => match a_shape a, a_buf a with [], [b] => Some (VNpScalar (a_dt a) b) | _, _ => Some (VArr a) end
+  | None => None
+  end.
+Proof. reflexivity. Qed.
+Lemma dec_complex re im : ext_unpack EXT_native_complex (WArr [WF64 re; WF64 im]) = Some (VComplex re im).
+Proof. reflexivity. Qed.
+Lemma dec_object p : ext_unpack EXT_bytes_ndarray p = object_from_bytes p.
+Proof. reflexivity. Qed.
+
+Lemma other_from_bytes o : dtype_of_name (o_name o) = None ->
+  ndarray_from_bytes (WArr [shape_wire (o_shape o); WStr (o_name o); WBin (o_raw o)]) = None.
+Proof.
+  intros H. unfold ndarray_from_bytes, shape_wire. cbn [length Nat.eqb ndarray_unpack_fields field_of].
+  now rewrite omap_wire_nat, H.
 Qed.
 
 (* ---------- the main induction ---------- *)
@@ -265,37 +312,30 @@ Proof.
   - (* leaves *)
     intros v L W. destruct v; try (exfalso; exact L); clear L.
     + (* set *) split; [discriminate|now left].
-    + (* ndarray *) split; [|discriminate]. intros _. eexists. split; [reflexivity|].
-      cbn [decode ext_unpack]. cbn [wf] in W. unfold ext_unpack. cbn [Z.eqb EXT_ndarray Pos.eqb].
-      rewrite from_to_bytes by (apply wf_logical_in_range; exact W). reflexivity.
-    + (* jax *) split; [|discriminate]. intros _. eexists. split; [reflexivity|].
+    + (* ndarray *) split; [|discriminate]. intros _. rewrite enc_arr. eexists. split; [reflexivity|].
+      cbn [decode wf] in *. rewrite dec_ndarray, from_to_bytes by (apply wf_logical_in_range; exact W). reflexivity.
+    + (* jax *) split; [|discriminate]. intros _. rewrite enc_jax. eexists. split; [reflexivity|].
       cbn [wf] in W. apply andb_true_iff in W. destruct W as [W _].
-      unfold decode, ext_unpack. cbn [Z.eqb EXT_ndarray Pos.eqb].
-      rewrite from_to_bytes.
+      cbn [decode]. rewrite dec_ndarray, from_to_bytes.
       * rewrite astype_native_idem. reflexivity.
       * rewrite astype_native_logical. change (a_dt (astype_native a)) with (a_dt a). apply wf_logical_in_range. exact W.
-    + (* other dtype *) split; [discriminate|]. intros _. cbn [wf] in W. cbn [encode].
+    + (* other dtype *) split; [discriminate|]. intros _. cbn [wf] in W. rewrite enc_other.
       unfold other_to_bytes. destruct (o_hasobject o || o_alignedstruct o); [now left|]. right.
-      eexists. split; [reflexivity|]. unfold decode, ext_unpack. cbn [Z.eqb EXT_ndarray Pos.eqb].
-      unfold ndarray_from_bytes, shape_wire. rewrite omap_wire_nat.
+      eexists. split; [reflexivity|]. cbn [decode]. rewrite dec_ndarray, other_from_bytes; [reflexivity|].
       destruct (dtype_of_name (o_name o)); [discriminate|reflexivity].
-    + (* object array *) cbn [wf] in W. split.
+    + (* object array *) cbn [wf] in W. rewrite enc_obj. split.
       * intros S. cbn [supported] in S. destruct (obj_roundtrip _ S) as [flat [A B]].
-        cbn [encode]. unfold bytes_ndarray_to_bytes. rewrite A. eexists. split; [reflexivity|].
-        unfold decode, ext_unpack. cbn [Z.eqb EXT_ndarray EXT_native_complex EXT_npscalar EXT_bytes_ndarray Pos.eqb].
-        unfold object_from_bytes, shape_wire. rewrite omap_wire_nat, B, W. reflexivity.
-      * intros S. cbn [supported] in S. left. cbn [encode]. unfold bytes_ndarray_to_bytes.
-        rewrite (obj_reject _ S). reflexivity.
-    + (* numpy scalar *) split; [|discriminate]. intros _. eexists. split; [reflexivity|].
-      cbn [wf] in W. unfold decode, ext_unpack. cbn [Z.eqb EXT_ndarray EXT_native_complex EXT_npscalar Pos.eqb].
-      rewrite from_to_bytes.
+        rewrite A. eexists. split; [reflexivity|].
+        cbn [decode]. rewrite dec_object. unfold object_from_bytes, shape_wire.
+        cbn [length Nat.eqb bytes_unpack_fields field_of]. rewrite omap_wire_nat, B, W. reflexivity.
+      * intros S. cbn [supported] in S. left. rewrite (obj_reject _ S). reflexivity.
+    + (* numpy scalar *) split; [|discriminate]. intros _. rewrite enc_npscalar. eexists. split; [reflexivity|].
+      cbn [wf] in W. cbn [decode]. rewrite dec_npscalar, from_to_bytes.
       * reflexivity.
       * cbn. constructor; [exact W|constructor].
-    + (* other numpy scalar *) split; [discriminate|]. intros _. cbn [wf] in W. cbn [encode].
+    + (* other numpy scalar *) split; [discriminate|]. intros _. cbn [wf] in W. rewrite enc_npother.
       unfold other_to_bytes. destruct (o_hasobject o || o_alignedstruct o); [now left|]. right.
-      eexists. split; [reflexivity|]. unfold decode, ext_unpack.
-      cbn [Z.eqb EXT_ndarray EXT_native_complex EXT_npscalar Pos.eqb].
-      unfold ndarray_from_bytes, shape_wire. rewrite omap_wire_nat.
+      eexists. split; [reflexivity|]. cbn [decode]. rewrite dec_npscalar, other_from_bytes; [reflexivity|].
       destruct (dtype_of_name (o_name o)); [discriminate|reflexivity].
     + (* int *) cbn [supported encode]. destruct (int_packable z); split; try discriminate.
       * intros _. eexists. split; reflexivity.
@@ -305,7 +345,8 @@ Proof.
     + split; [|discriminate]. intros _. eexists. split; reflexivity.
     + split; [|discriminate]. intros _. eexists. split; reflexivity.
     + split; [|discriminate]. intros _. eexists. split; reflexivity.
-    + (* complex *) split; [|discriminate]. intros _. eexists. split; reflexivity.
+    + (* complex *) split; [|discriminate]. intros _. rewrite enc_complex. eexists. split; [reflexivity|].
+      cbn [decode canon]. apply dec_complex.
     + (* foreign *) split; [discriminate|now left].
 Qed.
 
@@ -341,6 +382,9 @@ Definition client_ok (c : client) : bool :=
   wf (client_value c) && supported (client_value c) &&
   match num_examples (snd (snd c)) with Some _ => true | None => false end.
 
+Lemma db_build_eq cs : db_build cs = omap build_row cs.
+Proof. reflexivity. Qed.
+
 Lemma sqlite_roundtrip : forall cs, forallb client_ok cs = true ->
   exists db, db_build cs = Some db /\ db_ids db = map fst cs /\
     Forall2 (fun c r => r_id r = fst c /\ num_examples (snd (snd c)) = Some (r_n r)) cs db /\
@@ -355,7 +399,7 @@ Proof.
     destruct (all_good _ W) as [G _]. destruct (G S) as [w [E D]].
     destruct c as [id [ks vs]]. unfold client_value in *. cbn [snd fst] in *.
     destruct (num_examples vs) as [n|] eqn:N; [|discriminate].
-    exists (mkRow id w n :: db). unfold db_build. rewrite omap_cons. fold (db_build cs). rewrite B.
+    exists (mkRow id w n :: db). rewrite db_build_eq in *. rewrite omap_cons, B.
     unfold build_row. rewrite N, E. repeat split.
     + cbn [db_ids map r_id fst]. f_equal. exact I.
     + constructor; [cbn; split; [reflexivity|exact N]|exact F].
@@ -369,10 +413,16 @@ Proof.
   destruct (r <? fst e) eqn:E; [apply Z.ltb_lt in E; lia|]. now rewrite IH.
 Qed.
 
-Lemma checkpoint_last_save_wins d r s keep : 1 <= keep -> Forall (fun e => fst e <= r) d ->
-  ck_load (ck_save d r s keep) = Some (r, s).
+Lemma ck_save_closed d r s keep : ck_save d r s keep = Some (ck_retain (ck_put d r s) keep).
 Proof.
-  intros Hk Hd. unfold ck_save.
+  unfold ck_save. cbn [save_checkpoint_effects fold_left ck_effect_apply].
+  destruct (existsb (fun e => fst e =? r) d); reflexivity.
+Qed.
+
+Lemma checkpoint_last_save_wins d r s keep : 1 <= keep -> Forall (fun e => fst e <= r) d ->
+  exists d', ck_save d r s keep = Some d' /\ ck_load d' = Some (r, s).
+Proof.
+  intros Hk Hd. rewrite ck_save_closed. eexists. split; [reflexivity|]. unfold ck_retain, ck_put.
   set (d' := filter (fun e => negb (fst e =? r)) d).
   assert (F : Forall (fun e => fst e < r) d').
   { subst d'. rewrite Forall_forall in *. intros e He. apply filter_In in He. destruct He as [Hi Hn].
@@ -386,3 +436,10 @@ Proof.
   - destruct (skipn n d'); discriminate.
   - rewrite <- Q. now rewrite last_last.
 Qed.
+
+
+Lemma tables_consistent :
+  ndarray_tuple_fields = ndarray_unpack_fields /\ bytes_tuple_fields = bytes_unpack_fields /\
+  forallb (fun b => existsb (fun u => fst u =? snd (fst b)) unpack_dispatch) pack_dispatch = true /\
+  serialize_strict_types = true.
+Proof. repeat split. Qed.
